@@ -70,7 +70,7 @@ func genDbCase(c *Ctx, backend, dom string) string {
 	var keys, sids []string
 	if dom == "wf" {
 		keys = []string{"foo", "foobar", "bar", "xyzzy", "foo_baz", "a1"}
-		sids = []string{"", "alice", "bob", "alicia"}
+		sids = []string{"", "alice", "bob", "alicia", "alice ", "alice\n", " alice", " "}
 	} else {
 		keys = []string{"a", "b.c", "c", "a.b", "Pa.b.c", "P", "@a", "_nor", "a_nor", "b", "a.b.c", "xyzzy_nor"}
 		sids = []string{"", "a", "a.b", "Pa", "@a", "b"}
@@ -87,6 +87,25 @@ func genDbCase(c *Ctx, backend, dom string) string {
 			}
 		}
 	}
+	if dom == "adv" && r.Intn(3) == 0 {
+		// two coordinates whose file names are one another's legacy name: (type t, session s, key k) is stored as
+		// chr(0x30+t) s.k, which is also the legacy (type-less) name of (any type, session chr(0x30+t)+s, key k)
+		ta, tb := []int{32, 16}[r.Intn(2)], []int{16, 32}[r.Intn(2)]
+		sa := []string{"a", "b"}[r.Intn(2)]
+		sb := string(rune(0x30+ta)) + sa
+		k := hxs([]string{"b", "c", "a.b"}[r.Intn(3)])
+		pre := [][]string{
+			{fmt.Sprintf("P:%d", ta), "S:" + hxs(sa), fmt.Sprintf("W:%s:%s:-", k, hxs("secret-of-"+sa))},
+			{fmt.Sprintf("P:%d", tb), "S:" + hxs(sb), fmt.Sprintf("W:%s:%s:-", k, hxs("own-of-"+sb))},
+		}
+		if r.Intn(2) == 0 {
+			pre[0], pre[1] = pre[1], pre[0]
+		}
+		for _, p := range pre {
+			ops = append(ops, p...)
+		}
+		ops = append(ops, fmt.Sprintf("P:%d", tb), "S:"+hxs(sb), fmt.Sprintf("G:%s:-", k), fmt.Sprintf("P:%d", ta), "S:"+hxs(sa), fmt.Sprintf("G:%s:-", k))
+	}
 	for i := 0; i < n; i++ {
 		k := hxs(keys[r.Intn(len(keys))])
 		cl := langs[r.Intn(len(langs))]
@@ -95,7 +114,7 @@ func genDbCase(c *Ctx, backend, dom string) string {
 		}
 		switch x := r.Intn(20); {
 		case x < 6:
-			val := hxs([]string{"v1", "value two", "3", "\x00\xffbin", "tre", ""}[r.Intn(6)] + strconv.Itoa(i))
+			val := hxs([]string{"v1", "value two", "3", "\x00\xffbin", "tre", ""}[r.Intn(6)] + strconv.Itoa(i) + []string{"", "", "", "\n", " ", "\n\n", "\t"}[r.Intn(7)])
 			ops = append(ops, fmt.Sprintf("W:%s:%s:%s", k, val, cl))
 		case x < 12:
 			ops = append(ops, fmt.Sprintf("G:%s:%s", k, cl))
@@ -398,6 +417,12 @@ func classifyLeak(backend string, ref map[coord][]byte, want, wantDefault coord,
 				return "isolation-key-not-injective", "C11"
 			}
 			if strings.HasPrefix(backend, "fs") {
+				// the known legacy-name fallback only applies when the reader has no record of its own
+				_, own := ref[want]
+				_, ownDef := ref[wantDefault]
+				if own || ownDef {
+					return "isolation-fs-own-record-shadowed", "C11"
+				}
 				return "isolation-fs-legacy-name", "C11"
 			}
 			return "isolation", "C11"
